@@ -48,8 +48,17 @@ impl XenDev {
         self.fds.push(f.as_raw_fd());
         f
     }
+    /// descriptor numbers are reused, so the device is recognised by its inode
     pub fn is_dev(&self, fd: i32) -> bool {
-        self.fds.contains(&fd)
+        if fd < 0 {
+            return false;
+        }
+        // SAFETY: fstat into zeroed buffers.
+        unsafe {
+            let mut a: libc::stat = std::mem::zeroed();
+            let mut b: libc::stat = std::mem::zeroed();
+            libc::fstat(fd, &mut a) == 0 && libc::fstat(self.mem.as_raw_fd(), &mut b) == 0 && a.st_ino == b.st_ino && a.st_dev == b.st_dev
+        }
     }
     pub fn live_grants(&self) -> Vec<(u64, u32)> {
         self.grants.iter().filter(|g| g.live).map(|g| (g.index, g.count)).collect()
